@@ -94,6 +94,8 @@ def canon(v, memo=None):
         return ["X"]
     t = type(v)
     if t in int_types:
+        if PY2 and t is not int:
+            return ["i", str(int(v)), "L"]      # Python 2 long: a different kind from int
         return ["i", str(int(v))]
     if t is float:
         return ["f", _fbits(v)]
@@ -145,6 +147,8 @@ def uncanon(c):
     if k == "X":
         return StopIteration
     if k == "i":
+        if PY2 and len(c) > 2:
+            return long(c[1])      # noqa
         return int(c[1])
     if k == "f":
         return struct.unpack(">d", unhx(c[1]))[0]
@@ -723,7 +727,9 @@ def xcanon(v, py2file):
             raw = raw.encode("utf-8", "surrogatepass")
         return ["t", hx(raw)]
     t = type(v)
-    if t is int or isinstance(v, x.cross_types.LongTypeForPython3):
+    if isinstance(v, x.cross_types.LongTypeForPython3):
+        return ["i", str(int(v)), "L"] if py2file else ["i", str(int(v))]
+    if t is int:
         return ["i", str(int(v))]
     if t is float:
         return ["f", _fbits(v)]
